@@ -43,6 +43,11 @@ CLAIMED = {
    technique="explicit-state search over write/flush/restart programs on the real engine; oracle on the log read back and on the reported last sequence after every step",
    text="All programs up to depth 5-6 (6-7 thorough) over {put, delete, 3-entry and 1-entry commits, flush, bg, reopen} x configurations: the reported last sequence never decreases (also across reopen), the log directory read back holds exactly the program's writes in issue order, each stamped strictly higher than every earlier write, batch entries stamped alike. After crash recovery the same stamp rule is applied by C02's continuation step.",
    note="Stamps are read from the log (what replication ships)."),
+ "C03": dict(
+   level="model_checking", design="§3 C03",
+   technique="three exhaustive explorations of the implementation: bounded-exhaustive transaction bodies against a map model, crash-point/torn-write enumeration inside commit, and stateless interleaving exploration (controlled scheduler, deviation bound, happens-before caching) of a committer against readers",
+   text="(1) every transaction body of <=3 (4) buffer operations over 2 keys x {commit, rollback, abandon} x pre-states x {now, after reopen}, with caller buffers overwritten after each call, plus batch shapes (1, 3, beyond the 64 KiB log buffer, an entry larger than a record, empty value, commit on a closed engine); (2) every crash state inside a commit of 1/2/3/3x30KiB entries and inside the following write: recovered state holds all or none; (3) every interleaving (deviation bound 2 quick / 3 thorough) of a 2-key commit with Get(a);Get(b), Get(b);Get(a), a read-only transaction and a scan: nobody observes a strict subset.",
+   note="Process-death crash model; one open known finding (torn write between the records of a batch)."),
 }
 
 ALL = ["C%02d" % i for i in range(1, 21)]
